@@ -136,40 +136,88 @@ theorem noBuf_step (F : Nat) :
 
 /-! ## GzipDecompressor over the gzread contract -/
 
-theorem gzFd_step (cfg : Cfg) (hn : 0 < cfg.ibs) (F : Nat) :
-    StepSpec (gzFdDec (α := α) cfg)
+/-- will this gzFile make the wrapper raise? -/
+def gzBad (fx : Fixes) (s : GzState α) : Bool :=
+  s.trunc || s.dataErr || (fx.gzDirect && s.direct && !s.pending.isEmpty)
+
+theorem gzFd_step (cfg : Cfg) (hn : 0 < cfg.ibs) (fx : Fixes) (F : Nat) :
+    StepSpec (gzFdDec (α := α) cfg fx)
       (fun s => s.fsize = F ∧ s.off ≤ F ∧ (s.trunc = false → s.bufErr = false))
-      (fun s => s.pending) (fun s => s.trunc) F := by
+      (fun s => s.pending) (gzBad fx) F := by
   intro s ⟨hF, ho, hb⟩
+  by_cases hd : (s.dataErr && decide (s.pending.length < cfg.ibs)) = true
+  · -- gzread returns -1
+    right; right
+    have hre : gzReadE cfg.ibs s = none := by simp only [gzReadE, hd]; rfl
+    refine ⟨⟨.gzip, .read⟩, by simp [gzFdDec, hre], ?_, by simp⟩
+    simp only [Bool.and_eq_true] at hd
+    simp [gzBad, hd.1]
+  have hre : gzReadE cfg.ibs s = some (gzRead cfg.ibs s) := by simp only [gzReadE, hd]; rfl
   by_cases hp : s.pending = []
-  · right; left
+  · have hde : s.dataErr = false := by
+      cases h : s.dataErr
+      · rfl
+      · exfalso; apply hd; simp [h, hp, hn]
+    have hread : (gzFdDec (α := α) cfg fx).read s = .ok (gzRead cfg.ibs s) := by
+      simp [gzFdDec, hre, gzRead, hp]
+    rw [hread]
+    right; left
     refine ⟨(gzRead cfg.ibs s).2, ?_, ?_, ?_⟩
-    · simp [gzFdDec, gzRead, hp]
+    · simp [gzRead, hp]
     · simp [gzFdDec, gzRead, hp, hn, hF]
     · cases ht : s.trunc
       · left
-        refine ⟨ht, hp, ?_⟩
+        refine ⟨by simp [gzBad, ht, hde, hp], hp, ?_⟩
         simp [gzFdDec, gzRead, hp, hn, ht, hb ht]
       · right
-        refine ⟨ht, ⟨.gzip, .close⟩, ?_, by simp⟩
+        refine ⟨by simp [gzBad, ht], ⟨.gzip, .close⟩, ?_, by simp⟩
         simp [gzFdDec, gzRead, hp, hn, ht]
-  · left
-    refine ⟨s.pending.take cfg.ibs, (gzRead cfg.ibs s).2, rfl, take_ne_nil hn hp, ?_, rfl, ?_, ?_⟩
-    · simp [gzRead]
-    · refine ⟨hF, ?_, ?_⟩
-      · simp only [gzRead]; split <;> omega
-      · intro ht; simp only [gzRead] at ht ⊢; simp [ht, hb ht]
-    · simp only [gzFdDec, gzRead]; split <;> omega
+  · have hne : s.pending.take cfg.ibs ≠ [] := take_ne_nil hn hp
+    have hemp : (s.pending.take cfg.ibs).isEmpty = false := by
+      cases h : s.pending.take cfg.ibs with
+      | nil => exact absurd h hne
+      | cons _ _ => rfl
+    have hpe : s.pending.isEmpty = false := by
+      cases h : s.pending with
+      | nil => exact absurd h hp
+      | cons _ _ => rfl
+    by_cases hdir : (fx.gzDirect && s.direct) = true
+    · -- repaired wrapper: gzdirect() after a read that delivered something
+      right; right
+      have h1 : fx.gzDirect = true ∧ s.direct = true := by simpa using hdir
+      refine ⟨⟨.gzip, .read⟩, ?_, ?_, by simp⟩
+      · have hc : (fx.gzDirect && s.direct && !(gzRead cfg.ibs s).1.isEmpty) = true := by
+          simp only [gzRead, hemp, h1.1, h1.2]; rfl
+        simp only [gzFdDec, hre, hc]; rfl
+      · simp [gzBad, h1.1, h1.2, hpe]
+    · have hdir' : (fx.gzDirect && s.direct) = false := by
+        cases h : (fx.gzDirect && s.direct) <;> simp_all
+      have hread : (gzFdDec (α := α) cfg fx).read s = .ok (gzRead cfg.ibs s) := by
+        have hc : (fx.gzDirect && s.direct && !(gzRead cfg.ibs s).1.isEmpty) = false := by
+          rw [hdir']; rfl
+        simp only [gzFdDec, hre, hc]; rfl
+      rw [hread]
+      left
+      refine ⟨s.pending.take cfg.ibs, (gzRead cfg.ibs s).2, rfl, hne, ?_, ?_, ?_, ?_⟩
+      · simp [gzRead]
+      · simp [gzBad, gzRead, hdir']
+      · refine ⟨hF, ?_, ?_⟩
+        · simp only [gzRead]; split <;> omega
+        · intro ht; simp only [gzRead] at ht ⊢; simp [ht, hb ht]
+      · simp only [gzFdDec, gzRead]; split <;> omega
 
 /-! ## Ghost data of files -/
 
 def hasTrunc (f : CFile α) : Bool := f.any (·.trunc)
 
-/-- only the last stream of a file can be cut -/
+/-- some stream is cut or damaged: the file is not a concatenation of complete valid streams -/
+def faulty (f : CFile α) : Bool := f.any (fun s => s.trunc || s.bad != .none)
+
+/-- only the last stream of a file can be cut or damaged (a library never looks beyond such a stream) -/
 def truncOnlyLast : CFile α → Bool
   | [] => true
   | [_] => true
-  | s :: t => !s.trunc && truncOnlyLast t
+  | s :: t => !s.trunc && s.bad == .none && truncOnlyLast t
 
 theorem refPayload_cons (s : Stream α) (t : CFile α) : refPayload (s :: t) = s.payload ++ refPayload t := by
   simp [refPayload]
@@ -187,45 +235,88 @@ theorem truncOnlyLast_head {s : Stream α} {t : CFile α} (h : truncOnlyLast (s 
   | nil => rfl
   | cons a t => simp [truncOnlyLast, ht] at h
 
-theorem intact_iff_hasTrunc (f : CFile α) : intact f = !hasTrunc f := by
+theorem truncOnlyLast_head_bad {s : Stream α} {t : CFile α} (h : truncOnlyLast (s :: t) = true) (hb : s.bad ≠ .none) : t = [] := by
+  cases t with
+  | nil => rfl
+  | cons a t => simp [truncOnlyLast, hb] at h
+
+theorem intact_iff_faulty (f : CFile α) : intact f = !faulty f := by
   induction f with
   | nil => rfl
   | cons s t ih =>
-    simp only [intact, hasTrunc, List.all_cons, List.any_cons] at *
-    rw [ih]; cases s.trunc <;> simp
+    simp only [intact, faulty, List.all_cons, List.any_cons] at *
+    rw [ih]; cases s.trunc <;> cases s.bad <;> first | rfl | simp
+
+theorem faulty_of_hasTrunc {f : CFile α} (h : hasTrunc f = true) : faulty f = true := by
+  simp only [hasTrunc, faulty, List.any_eq_true] at *
+  obtain ⟨x, hx, ht⟩ := h
+  exact ⟨x, hx, by simp [ht]⟩
+
+theorem faulty_cons (s : Stream α) (t : CFile α) : faulty (s :: t) = (s.trunc || s.bad != .none || faulty t) := by
+  simp [faulty]
+
+/-- no stream lacks its header -/
+def noMagic (f : CFile α) : Bool := f.all (fun s => s.bad != .magic)
+
+/-- what gzread hands out for a file in which every stream has its magic: all payloads; it fails
+    (Z_BUF_ERROR at close / Z_DATA_ERROR) exactly when some stream is cut or damaged -/
+theorem gzScan_noMagic : ∀ (b : Bool) (f : CFile α), noMagic f = true → truncOnlyLast f = true →
+    (gzScan b f).1 = refPayload f ∧ ((gzScan b f).2.1 || (gzScan b f).2.2) = faulty f := by
+  intro b f
+  induction f generalizing b with
+  | nil => intro _ _; simp [gzScan, refPayload, faulty]
+  | cons s t ih =>
+    intro hm hw
+    have hm' : noMagic t = true := by simp only [noMagic, List.all_cons, Bool.and_eq_true] at hm ⊢; exact hm.2
+    have hs : (s.bad != .magic) = true := by simp only [noMagic, List.all_cons, Bool.and_eq_true] at hm; exact hm.1
+    cases hb : s.bad with
+    | magic => simp [hb] at hs
+    | data =>
+      have ht : t = [] := truncOnlyLast_head_bad hw (by simp [hb])
+      subst ht
+      simp [gzScan, hb, refPayload, faulty]
+    | none =>
+      obtain ⟨i1, i2⟩ := ih false hm' (truncOnlyLast_tail hw)
+      simp only [gzScan, hb, refPayload_cons, faulty_cons]
+      refine ⟨by rw [i1], ?_⟩
+      rw [← i2]
+      cases s.trunc <;> simp
 
 /-! ## The buffer decompressors over the inflate / BZ2_bzDecompress contract -/
 
 def zRem (z : ZState α) : List α := if z.has then z.cur ++ refPayload z.rest else []
-def zBad (z : ZState α) : Bool := !z.has || z.trunc || hasTrunc z.rest
+def zBad (z : ZState α) : Bool := !z.has || z.trunc || z.bad != .none || faulty z.rest
 
 def bufRem (s : BufDec α) : List α := if s.live then zRem s.z else []
 def bufBad (s : BufDec α) : Bool := s.live && zBad s.z
 
 def BufInv (N : Nat) (s : BufDec α) : Prop :=
-  s.live = true → s.z.has = true ∧ (s.z.trunc = true → s.z.rest = []) ∧ truncOnlyLast s.z.rest = true ∧ s.z.rest.length ≤ N
+  s.live = true → s.z.has = true ∧ (s.z.trunc = true → s.z.rest = []) ∧ truncOnlyLast s.z.rest = true ∧ s.z.rest.length ≤ N ∧
+    (s.z.bad ≠ .none → s.z.rest = [])
 
 theorem zOpen_cons_rem (r : Stream α) (rs : CFile α) : zRem (zOpen (r :: rs)) = refPayload (r :: rs) := by
   simp [zRem, zOpen, refPayload_cons]
 
-theorem zOpen_cons_bad (r : Stream α) (rs : CFile α) : zBad (zOpen (r :: rs)) = hasTrunc (r :: rs) := by
-  simp [zBad, zOpen, hasTrunc]
+theorem zOpen_cons_bad (r : Stream α) (rs : CFile α) : zBad (zOpen (r :: rs)) = faulty (r :: rs) := by
+  simp [zBad, zOpen, faulty]
 
 theorem bufInv_open (N : Nat) (r : Stream α) (rs : CFile α) (h : truncOnlyLast (r :: rs) = true) (hl : rs.length ≤ N) :
     BufInv N { z := zOpen (r :: rs), live := true } := by
   intro _
-  refine ⟨rfl, ?_, truncOnlyLast_tail h, hl⟩
-  intro ht
-  exact truncOnlyLast_head h ht
+  refine ⟨rfl, ?_, truncOnlyLast_tail h, hl, ?_⟩
+  · intro ht
+    exact truncOnlyLast_head h ht
+  · intro hb
+    exact truncOnlyLast_head_bad h hb
 
-theorem zInflate_trunc (k : Kind) (room : Nat) (z : ZState α) (hh : z.has = true) (ht : z.trunc = true) :
+theorem zInflate_trunc (k : Kind) (room : Nat) (z : ZState α) (hh : z.has = true) (hb : z.bad = .none) (ht : z.trunc = true) :
     ∃ ret b, zInflate k room z = (z.cur.take room, ret, { z with cur := z.cur.drop room, inLeft := b }) ∧
       (ret = .ok ∨ ret = .bufError) := by
   cases k
   · by_cases hc : ((z.cur.take room).isEmpty && !z.inLeft) = true
-    · exact ⟨.bufError, _, by simp only [zInflate, hh, ht, hc]; rfl, Or.inr rfl⟩
-    · exact ⟨.ok, _, by simp only [zInflate, hh, ht, hc]; rfl, Or.inl rfl⟩
-  · exact ⟨.ok, _, by simp only [zInflate, hh, ht]; rfl, Or.inl rfl⟩
+    · exact ⟨.bufError, _, by simp only [zInflate, hh, hb, ht, hc]; rfl, Or.inr rfl⟩
+    · exact ⟨.ok, _, by simp only [zInflate, hh, hb, ht, hc]; rfl, Or.inl rfl⟩
+  · exact ⟨.ok, _, by simp only [zInflate, hh, hb, ht]; rfl, Or.inl rfl⟩
 
 /-- the repaired buffer decompressors: one `read()` -/
 theorem bufRead_fixed (cfg : Cfg) (k : Kind) (fx : Fixes) (hm : fx.bufMulti = true) (ht : fx.bufTrunc = true)
@@ -242,7 +333,43 @@ theorem bufRead_fixed (cfg : Cfg) (k : Kind) (fx : Fixes) (hm : fx.bufMulti = tr
       right; left
       refine ⟨s, by simp [bufRead, hlive], Nat.le_refl _, ?_⟩
       left; simp [bufBad, bufRem, hlive, bufDec]
-    · obtain ⟨hhas, htr, hwf, hN⟩ := hI hlive
+    · obtain ⟨hhas, htr, hwf, hN, hbr⟩ := hI hlive
+      by_cases hbad : ¬ s.z.bad = .none
+      · -- damaged current stream: the library reports it, the wrapper throws (any stream of the buffer)
+        have hbne : (s.z.bad != .none) = true := by simpa using hbad
+        have hrest : s.z.rest = [] := hbr hbad
+        have hbadS : bufBad s = true := by simp [bufBad, hlive, zBad, hbne]
+        by_cases herr : (s.z.bad == .magic || decide (s.z.cur.length < cfg.ostep)) = true
+        · right; right
+          have hz : zInflate k cfg.ostep s.z = ([], s.z.bad.zret, s.z) := by
+            simp only [zInflate, hhas, hbne, herr]; rfl
+          have hstep : bufStep cfg fx k s = .error ⟨errOf k, .read⟩ := by
+            simp only [bufStep, hz]
+            cases hb : s.z.bad
+            · exact absurd hb hbad
+            · rfl
+            · rfl
+          exact ⟨⟨errOf k, .read⟩, by simp [bufRead, hlive, hstep], hbadS, by cases k <;> simp [errOf]⟩
+        · have hge : cfg.ostep ≤ s.z.cur.length := by
+            simp only [Bool.or_eq_true, decide_eq_true_eq, not_or, Nat.not_lt] at herr; exact herr.2
+          have hne : s.z.cur.take cfg.ostep ≠ [] := by
+            apply take_ne_nil hr
+            intro h; rw [h] at hge; simp at hge; omega
+          have hemp : (s.z.cur.take cfg.ostep).isEmpty = false := by
+            cases h : s.z.cur.take cfg.ostep with
+            | nil => exact absurd h hne
+            | cons _ _ => rfl
+          have hz : zInflate k cfg.ostep s.z = (s.z.cur.take cfg.ostep, .ok, { s.z with cur := s.z.cur.drop cfg.ostep }) := by
+            simp only [zInflate, hhas, hbne, herr]; rfl
+          have hstep : bufStep cfg fx k s = .ok (s.z.cur.take cfg.ostep, { z := { s.z with cur := s.z.cur.drop cfg.ostep }, live := true }) := by
+            simp [bufStep, hz, hhas, List.length_take, Nat.min_eq_left hge]
+          left
+          refine ⟨s.z.cur.take cfg.ostep, { z := { s.z with cur := s.z.cur.drop cfg.ostep }, live := true }, ?_, hne, ?_, ?_, ?_, Nat.le_refl _⟩
+          · simp [bufRead, hlive, hstep, hemp]
+          · simp [bufRem, hlive, zRem, hhas, ← List.append_assoc]
+          · simp [bufBad, hlive, zBad, hhas, hbne]
+          · intro _; exact ⟨hhas, htr, hwf, hN, hbr⟩
+      have hbad : s.z.bad = .none := Classical.not_not.mp hbad
       cases htrunc : s.z.trunc
       · -- intact current stream
         by_cases hle : s.z.cur.length ≤ cfg.ostep
@@ -250,13 +377,13 @@ theorem bufRead_fixed (cfg : Cfg) (k : Kind) (fx : Fixes) (hm : fx.bufMulti = tr
           cases hrest : s.z.rest with
           | nil =>
             have hstep : bufStep cfg fx k s = .ok (s.z.cur, { z := { s.z with cur := [] }, live := false }) := by
-              simp [bufStep, zInflate, hhas, htrunc, hle, hrest, List.take_of_length_le hle]
+              simp [bufStep, zInflate, hhas, hbad, htrunc, hle, hrest, List.take_of_length_le hle]
             by_cases hout : s.z.cur = []
             · right; left
               refine ⟨{ z := { s.z with cur := [] }, live := false }, ?_, Nat.le_refl _, ?_⟩
               · simp only [bufRead, hlive, hstep, hm, hout]
                 cases fuel <;> simp [bufRead]
-              · left; simp [bufBad, bufRem, hlive, zBad, zRem, hhas, htrunc, hrest, hout, hasTrunc, refPayload, bufDec]
+              · left; simp [bufBad, bufRem, hlive, zBad, zRem, hhas, hbad, htrunc, hrest, hout, faulty, refPayload, bufDec]
             · left
               refine ⟨s.z.cur, { z := { s.z with cur := [] }, live := false }, ?_, hout, ?_, ?_, ?_, Nat.le_refl _⟩
               · have : s.z.cur.isEmpty = false := by
@@ -265,11 +392,11 @@ theorem bufRead_fixed (cfg : Cfg) (k : Kind) (fx : Fixes) (hm : fx.bufMulti = tr
                   | cons _ _ => rfl
                 simp [bufRead, hlive, hstep, this]
               · simp [bufRem, hlive, zRem, hhas, hrest, refPayload]
-              · simp [bufBad, hlive, zBad, hhas, htrunc, hrest, hasTrunc]
+              · simp [bufBad, hlive, zBad, hhas, hbad, htrunc, hrest, faulty]
               · intro h; cases h
           | cons r rs =>
             have hstep : bufStep cfg fx k s = .ok (s.z.cur, { z := zOpen (r :: rs), live := true }) := by
-              simp [bufStep, zInflate, hhas, htrunc, hle, hrest, hm, zNext, List.take_of_length_le hle]
+              simp [bufStep, zInflate, hhas, hbad, htrunc, hle, hrest, hm, zNext, List.take_of_length_le hle]
             have hwf' : truncOnlyLast (r :: rs) = true := by rw [← hrest]; exact hwf
             have hlen : rs.length ≤ N := by rw [hrest] at hN; simp at hN; omega
             have hI' : BufInv N { z := zOpen (r :: rs), live := true } := bufInv_open N r rs hwf' hlen
@@ -280,7 +407,7 @@ theorem bufRead_fixed (cfg : Cfg) (k : Kind) (fx : Fixes) (hm : fx.bufMulti = tr
               rw [hgo]
               apply Outcome.transfer (t := { z := zOpen (r :: rs), live := true })
               · simp [bufRem, hlive, zRem, hhas, hrest, hout, zOpen, refPayload_cons]
-              · simp [bufBad, hlive, zBad, hhas, htrunc, hrest, zOpen, hasTrunc]
+              · simp [bufBad, hlive, zBad, hhas, hbad, htrunc, hrest, zOpen, faulty]
               · apply ih _ hI'
                 rw [hrest] at hfuel
                 simp [zOpen] at hfuel ⊢; omega
@@ -292,14 +419,14 @@ theorem bufRead_fixed (cfg : Cfg) (k : Kind) (fx : Fixes) (hm : fx.bufMulti = tr
                   | cons _ _ => rfl
                 simp [bufRead, hlive, hstep, this]
               · simp [bufRem, hlive, zRem, hhas, hrest, zOpen, refPayload_cons]
-              · simp [bufBad, hlive, zBad, hhas, htrunc, hrest, zOpen, hasTrunc]
+              · simp [bufBad, hlive, zBad, hhas, hbad, htrunc, hrest, zOpen, faulty]
         · -- more than one output step left: Z_OK with a full step
           have hgt : cfg.ostep < s.z.cur.length := Nat.lt_of_not_le hle
           have hne : s.z.cur.take cfg.ostep ≠ [] := by
             apply take_ne_nil hr
             intro h; rw [h] at hgt; simp at hgt
           have hstep : bufStep cfg fx k s = .ok (s.z.cur.take cfg.ostep, { z := { s.z with cur := s.z.cur.drop cfg.ostep }, live := true }) := by
-            simp [bufStep, zInflate, hhas, htrunc, hle]
+            simp [bufStep, zInflate, hhas, hbad, htrunc, hle]
           left
           refine ⟨s.z.cur.take cfg.ostep, { z := { s.z with cur := s.z.cur.drop cfg.ostep }, live := true }, ?_, hne, ?_, ?_, ?_, Nat.le_refl _⟩
           · have : (s.z.cur.take cfg.ostep).isEmpty = false := by
@@ -308,16 +435,16 @@ theorem bufRead_fixed (cfg : Cfg) (k : Kind) (fx : Fixes) (hm : fx.bufMulti = tr
               | cons _ _ => rfl
             simp [bufRead, hlive, hstep, this]
           · simp [bufRem, hlive, zRem, hhas, ← List.append_assoc]
-          · simp [bufBad, hlive, zBad, hhas, htrunc]
-          · intro _; exact ⟨hhas, by simp [htrunc], hwf, hN⟩
+          · simp [bufBad, hlive, zBad, hhas, hbad, htrunc]
+          · intro _; exact ⟨hhas, by simp [htrunc], hwf, hN, hbr⟩
       · -- the buffer ends inside the current stream
         have hrest : s.z.rest = [] := htr htrunc
         by_cases hlt : s.z.cur.length < cfg.ostep
         · -- the call cannot fill its output: reported
           right; right
-          have hbad : bufBad s = true := by simp [bufBad, hlive, zBad, htrunc]
+          have hbadS : bufBad s = true := by simp [bufBad, hlive, zBad, htrunc]
           have : ∃ e, bufStep cfg fx k s = .error e ∧ e.cls ≠ .fuel := by
-            obtain ⟨ret, b, hz, hret⟩ := zInflate_trunc k cfg.ostep s.z hhas htrunc
+            obtain ⟨ret, b, hz, hret⟩ := zInflate_trunc k cfg.ostep s.z hhas hbad htrunc
             rcases hret with rfl | rfl
             · refine ⟨⟨errOf k, .read⟩, ?_, by cases k <;> simp [errOf]⟩
               simp [bufStep, hz, ht, hhas, htrunc, List.length_take]
@@ -325,7 +452,7 @@ theorem bufRead_fixed (cfg : Cfg) (k : Kind) (fx : Fixes) (hm : fx.bufMulti = tr
             · refine ⟨⟨errOf k, .read⟩, ?_, by cases k <;> simp [errOf]⟩
               simp [bufStep, hz]
           obtain ⟨e, he, hf⟩ := this
-          exact ⟨e, by simp [bufRead, hlive, he], hbad, hf⟩
+          exact ⟨e, by simp [bufRead, hlive, he], hbadS, hf⟩
         · have hge : cfg.ostep ≤ s.z.cur.length := Nat.le_of_not_lt hlt
           have hne : s.z.cur.take cfg.ostep ≠ [] := by
             apply take_ne_nil hr
@@ -334,7 +461,7 @@ theorem bufRead_fixed (cfg : Cfg) (k : Kind) (fx : Fixes) (hm : fx.bufMulti = tr
             cases h : s.z.cur.take cfg.ostep with
             | nil => exact absurd h hne
             | cons _ _ => rfl
-          obtain ⟨ret, b, hz, hret⟩ := zInflate_trunc k cfg.ostep s.z hhas htrunc
+          obtain ⟨ret, b, hz, hret⟩ := zInflate_trunc k cfg.ostep s.z hhas hbad htrunc
           have hret' : ret = .ok := by
             rcases hret with h | h
             · exact h
@@ -342,10 +469,10 @@ theorem bufRead_fixed (cfg : Cfg) (k : Kind) (fx : Fixes) (hm : fx.bufMulti = tr
               exfalso
               cases k
               · rw [h] at hz
-                simp only [zInflate, hhas, htrunc, hemp] at hz
+                simp only [zInflate, hhas, hbad, htrunc, hemp] at hz
                 simp at hz
               · rw [h] at hz
-                simp only [zInflate, hhas, htrunc] at hz
+                simp only [zInflate, hhas, hbad, htrunc] at hz
                 simp at hz
           subst hret'
           have hstep : bufStep cfg fx k s = .ok (s.z.cur.take cfg.ostep, { z := { s.z with cur := s.z.cur.drop cfg.ostep, inLeft := b }, live := true }) := by
@@ -354,15 +481,15 @@ theorem bufRead_fixed (cfg : Cfg) (k : Kind) (fx : Fixes) (hm : fx.bufMulti = tr
           refine ⟨s.z.cur.take cfg.ostep, { z := { s.z with cur := s.z.cur.drop cfg.ostep, inLeft := b }, live := true }, ?_, hne, ?_, ?_, ?_, Nat.le_refl _⟩
           · simp [bufRead, hlive, hstep, hemp]
           · simp [bufRem, hlive, zRem, hhas, ← List.append_assoc]
-          · simp [bufBad, hlive, zBad, hhas, htrunc]
-          · intro _; exact ⟨hhas, fun _ => hrest, hwf, hN⟩
+          · simp [bufBad, hlive, zBad, hhas, hbad, htrunc]
+          · intro _; exact ⟨hhas, fun _ => hrest, hwf, hN, hbr⟩
 
 theorem bufDec_fixed_step (cfg : Cfg) (k : Kind) (fx : Fixes) (hm : fx.bufMulti = true) (ht : fx.bufTrunc = true)
     (hr : 0 < cfg.ostep) (N : Nat) :
     StepSpec (bufDec (α := α) cfg fx k N) (BufInv N) bufRem bufBad 0 := by
   intro s hI
   by_cases hl : s.live = true
-  · exact bufRead_fixed cfg k fx hm ht hr N (N + 1) s hI (by have := (hI hl).2.2.2; omega)
+  · exact bufRead_fixed cfg k fx hm ht hr N (N + 1) s hI (by have := (hI hl).2.2.2.1; omega)
   · have : (bufDec cfg fx k N).read s = bufRead cfg fx k (N + 1) s := rfl
     rw [this]
     have hl' : s.live = false := by cases h : s.live <;> simp_all
@@ -375,7 +502,7 @@ def bufRem0 (s : BufDec α) : List α := if s.live then s.z.cur else []
 
 theorem bufDec_current_step (cfg : Cfg) (k : Kind) (fx : Fixes) (hm : fx.bufMulti = false) (ht : fx.bufTrunc = false)
     (hr : 0 < cfg.ostep) (N : Nat) :
-    StepSpec (bufDec (α := α) cfg fx k N) (fun s => s.live = true → s.z.has = true ∧ s.z.trunc = false)
+    StepSpec (bufDec (α := α) cfg fx k N) (fun s => s.live = true → s.z.has = true ∧ s.z.trunc = false ∧ s.z.bad = .none)
       bufRem0 (fun _ => false) 0 := by
   intro s hI
   have hread : (bufDec cfg fx k N).read s = bufRead cfg fx k (N + 1) s := rfl
@@ -384,10 +511,10 @@ theorem bufDec_current_step (cfg : Cfg) (k : Kind) (fx : Fixes) (hm : fx.bufMult
   · right; left
     refine ⟨s, by simp [bufRead, hlive], Nat.le_refl _, ?_⟩
     left; simp [bufRem0, hlive, bufDec]
-  · obtain ⟨hhas, htrunc⟩ := hI hlive
+  · obtain ⟨hhas, htrunc, hbad⟩ := hI hlive
     by_cases hle : s.z.cur.length ≤ cfg.ostep
     · have hstep : bufStep cfg fx k s = .ok (s.z.cur, { z := { s.z with cur := [] }, live := false }) := by
-        simp [bufStep, zInflate, hhas, htrunc, hle, hm, List.take_of_length_le hle]
+        simp [bufStep, zInflate, hhas, hbad, htrunc, hle, hm, List.take_of_length_le hle]
       by_cases hout : s.z.cur = []
       · right; left
         refine ⟨{ z := { s.z with cur := [] }, live := false }, ?_, Nat.le_refl _, ?_⟩
@@ -403,12 +530,12 @@ theorem bufDec_current_step (cfg : Cfg) (k : Kind) (fx : Fixes) (hm : fx.bufMult
         apply take_ne_nil hr
         intro h; rw [h] at hgt; simp at hgt
       have hstep : bufStep cfg fx k s = .ok (s.z.cur.take cfg.ostep, { z := { s.z with cur := s.z.cur.drop cfg.ostep }, live := true }) := by
-        simp [bufStep, zInflate, hhas, htrunc, hle, ht]
+        simp [bufStep, zInflate, hhas, hbad, htrunc, hle, ht]
       left
       refine ⟨s.z.cur.take cfg.ostep, { z := { s.z with cur := s.z.cur.drop cfg.ostep }, live := true }, ?_, hne, ?_, rfl, ?_, Nat.le_refl _⟩
       · simp [bufRead, hlive, hstep, hm]
       · simp [bufRem0, hlive]
-      · intro _; exact ⟨hhas, htrunc⟩
+      · intro _; exact ⟨hhas, htrunc, hbad⟩
 
 /-! ## The BZ2_bzRead oracle satisfies its contract -/
 
@@ -419,6 +546,43 @@ theorem bzRefill_frame (cfg : Cfg) (s : BzState α) :
   split
   · split <;> simp
   · simp
+
+theorem bzRefill_bad (cfg : Cfg) (s : BzState α) : (bzRefill cfg s).bad = s.bad := by
+  unfold bzRefill
+  split
+  · split <;> simp
+  · simp
+
+theorem bzProbe_bad (s : BzState α) : (bzProbe s).bad = s.bad := by
+  unfold bzProbe
+  split <;> simp
+
+/-- one iteration of the BZ2_bzRead loop on a stream that has a header -/
+theorem bzReadLoop_succ (cfg : Cfg) (fuel room : Nat) (acc : List α) (s : BzState α) (h : s.bad ≠ .magic) :
+    bzReadLoop cfg (fuel + 1) room acc s =
+      (if (bzDecompress cfg room (bzRefill cfg s)).2.1 then
+        .ok (acc ++ (bzDecompress cfg room (bzRefill cfg s)).1, true, (bzDecompress cfg room (bzRefill cfg s)).2.2)
+      else
+        if (bzProbe (bzDecompress cfg room (bzRefill cfg s)).2.2).fp == (bzProbe (bzDecompress cfg room (bzRefill cfg s)).2.2).fsize &&
+            (bzProbe (bzDecompress cfg room (bzRefill cfg s)).2.2).pos == (bzProbe (bzDecompress cfg room (bzRefill cfg s)).2.2).fp &&
+            decide (0 < room - (bzDecompress cfg room (bzRefill cfg s)).1.length) then .error (BzErr.ofBad s.bad)
+        else if room - (bzDecompress cfg room (bzRefill cfg s)).1.length == 0 then
+          .ok (acc ++ (bzDecompress cfg room (bzRefill cfg s)).1, false, bzProbe (bzDecompress cfg room (bzRefill cfg s)).2.2)
+        else bzReadLoop cfg fuel (room - (bzDecompress cfg room (bzRefill cfg s)).1.length)
+          (acc ++ (bzDecompress cfg room (bzRefill cfg s)).1) (bzProbe (bzDecompress cfg room (bzRefill cfg s)).2.2)) := by
+  have hm : (s.bad == Bad.magic) = false := by
+    cases hb : s.bad
+    · rfl
+    · rfl
+    · exact absurd hb h
+  rw [bzReadLoop]
+  simp only [hm]
+  rfl
+
+/-- bytes that do not start with a bzip2 header: BZ_DATA_ERROR_MAGIC from the first call -/
+theorem bzReadLoop_magic (cfg : Cfg) (fuel room : Nat) (acc : List α) (s : BzState α) (h : s.bad = .magic) :
+    bzReadLoop cfg (fuel + 1) room acc s = .error .dataErrorMagic := by
+  rw [bzReadLoop]; simp [h]
 
 theorem bzRefill_fp (cfg : Cfg) (hra : 0 < cfg.ra) (s : BzState α) (h2 : s.fp ≤ s.fsize) :
     s.fp ≤ (bzRefill cfg s).fp ∧ (bzRefill cfg s).fp ≤ s.fsize ∧
@@ -443,6 +607,7 @@ structure BzPost (s s' : BzState α) (room : Nat) (fin : Bool) : Prop where
   rest : s'.rest = s.rest
   trunc : s'.trunc = s.trunc
   fsize : s'.fsize = s.fsize
+  bad : s'.bad = s.bad
   pos_le : s'.pos ≤ s'.fp
   fp_le : s'.fp ≤ s'.fsize
   fin_t : fin = true → s.cur.length ≤ room ∧ s'.pos = s.e
@@ -451,14 +616,16 @@ structure BzPost (s s' : BzState α) (room : Nat) (fin : Bool) : Prop where
 /-- Contract of BZ2_bzRead on an intact stream: BZ_OK with exactly `room` bytes, or BZ_STREAM_END with all
     that was left (at most `room`, possibly nothing); the handle then stands at the end of the stream. -/
 theorem bzReadLoop_intact (cfg : Cfg) (hra : 0 < cfg.ra) :
-    ∀ fuel room acc (s : BzState α), s.trunc = false → s.pos ≤ s.fp → s.fp ≤ s.fsize → s.e ≤ s.fsize → 0 < room →
+    ∀ fuel room acc (s : BzState α), s.trunc = false → s.bad = .none → s.pos ≤ s.fp → s.fp ≤ s.fsize → s.e ≤ s.fsize → 0 < room →
       s.fsize - s.fp + (if s.pos = s.fp then 1 else 2) ≤ fuel →
       ∃ fin s', bzReadLoop cfg fuel room acc s = .ok (acc ++ s.cur.take room, fin, s') ∧ BzPost s s' room fin := by
   intro fuel
   induction fuel with
-  | zero => intro room acc s _ _ _ _ _ hf; split at hf <;> omega
+  | zero => intro room acc s _ _ _ _ _ _ hf; split at hf <;> omega
   | succ fuel ih =>
-    intro room acc s htr hpos hfp he hroom hfuel
+    intro room acc s htr hb hpos hfp he hroom hfuel
+    have hnm : s.bad ≠ .magic := by rw [hb]; intro h; cases h
+    have fb := bzRefill_bad cfg s
     obtain ⟨f1, f2, f3, f4, f5, f6⟩ := bzRefill_frame cfg s
     obtain ⟨g1, g2, g3⟩ := bzRefill_fp cfg hra s hfp
     generalize hs1 : bzRefill cfg s = s1 at *
@@ -477,14 +644,14 @@ theorem bzReadLoop_intact (cfg : Cfg) (hra : 0 < cfg.ra) :
       have hp3 : bzProbe { s1 with pos := s1.fp } = { s1 with pos := s1.fp } := by
         simp [bzProbe, f5, hne]
       have hgo : bzReadLoop cfg (fuel + 1) room acc s = bzReadLoop cfg fuel room acc { s1 with pos := s1.fp } := by
-        simp only [bzReadLoop, hs1, hr, hp3]
+        simp only [bzReadLoop_succ cfg _ _ _ s hnm, hs1, hr, hp3]
         simp [f5, hne]
         omega
-      obtain ⟨fin, s', h1, h2⟩ := ih room acc { s1 with pos := s1.fp } (by simp [f4, htr]) (by simp) (by simp [f5]; omega)
+      obtain ⟨fin, s', h1, h2⟩ := ih room acc { s1 with pos := s1.fp } (by simp [f4, htr]) (by simp [fb, hb]) (by simp) (by simp [f5]; omega)
         (by simp [f2, f5]; omega) hroom (by simp [f5]; exact hfuel' (by omega))
       refine ⟨fin, s', ?_, ?_⟩
       · rw [hgo, h1]; simp [f1]
-      · exact ⟨(by rw [h2.cur]; simp [f1]), (by rw [h2.e]; simp [f2]), (by rw [h2.rest]; simp [f3]), (by rw [h2.trunc]; simp [f4]), (by rw [h2.fsize]; simp [f5]), h2.pos_le, h2.fp_le, (by intro h; have := h2.fin_t h; simpa [f1, f2] using this), (by intro h; have := h2.fin_f h; simpa [f1] using this)⟩
+      · exact ⟨(by rw [h2.cur]; simp [f1]), (by rw [h2.e]; simp [f2]), (by rw [h2.rest]; simp [f3]), (by rw [h2.trunc]; simp [f4]), (by rw [h2.fsize]; simp [f5]), (by rw [h2.bad]; simp [fb]), h2.pos_le, h2.fp_le, (by intro h; have := h2.fin_t h; simpa [f1, f2] using this), (by intro h; have := h2.fin_f h; simpa [f1] using this)⟩
     · by_cases hB : room < s.cur.length
       · -- more payload than output space: BZ_OK, avail_out == 0
         have hd : (s.cur.drop room).isEmpty = false := by
@@ -495,10 +662,10 @@ theorem bzReadLoop_intact (cfg : Cfg) (hra : 0 < cfg.ra) :
           simp [bzDecompress, f4, htr, f2, hA, f1, hd]
         have hlen : (s.cur.take room).length = room := by simp [List.length_take]; omega
         refine ⟨false, bzProbe { s1 with pos := s.e - cfg.trailer, cur := s.cur.drop room }, ?_, ?_⟩
-        · simp only [bzReadLoop, hs1, hr, hlen]
+        · simp only [bzReadLoop_succ cfg _ _ _ s hnm, hs1, hr, hlen]
           simp
         · obtain ⟨p1, p2, p3, p4, p5, p6, p7⟩ := bzProbe_frame { s1 with pos := s.e - cfg.trailer, cur := s.cur.drop room }
-          exact ⟨(by rw [p1]), (by rw [p2]; exact f2), (by rw [p3]; exact f3), (by rw [p4]; exact f4), (by rw [p5]; exact f5), (by rw [p6, p7]; simp; omega), (by rw [p7, p5]; simp [f5]; omega), (by intro h; cases h), (by intro _; omega)⟩
+          exact ⟨(by rw [p1]), (by rw [p2]; exact f2), (by rw [p3]; exact f3), (by rw [p4]; exact f4), (by rw [p5]; exact f5), (by rw [bzProbe_bad]; exact fb), (by rw [p6, p7]; simp; omega), (by rw [p7, p5]; simp [f5]; omega), (by intro h; cases h), (by intro _; omega)⟩
       · have hle : s.cur.length ≤ room := Nat.le_of_not_lt hB
         have hd : (s.cur.drop room).isEmpty = true := by
           rw [List.isEmpty_iff, List.drop_eq_nil_iff]; exact hle
@@ -512,15 +679,15 @@ theorem bzReadLoop_intact (cfg : Cfg) (hra : 0 < cfg.ra) :
             simp [bzProbe, f5, hne]
           by_cases hz : room - s.cur.length = 0
           · refine ⟨false, { s1 with pos := s1.fp, cur := [] }, ?_, ?_⟩
-            · simp only [bzReadLoop, hs1, hr, hp3]
+            · simp only [bzReadLoop_succ cfg _ _ _ s hnm, hs1, hr, hp3]
               simp [f5, hz, htake]
-            · exact ⟨(by simp [List.drop_eq_nil_iff.mpr hle]), f2, f3, f4, f5, (by simp), (by simp [f5]; omega), (by intro h; cases h), (by intro _; omega)⟩
+            · exact ⟨(by simp [List.drop_eq_nil_iff.mpr hle]), f2, f3, f4, f5, fb, (by simp), (by simp [f5]; omega), (by intro h; cases h), (by intro _; omega)⟩
           · have hgo : bzReadLoop cfg (fuel + 1) room acc s =
                 bzReadLoop cfg fuel (room - s.cur.length) (acc ++ s.cur) { s1 with pos := s1.fp, cur := [] } := by
-              simp only [bzReadLoop, hs1, hr, hp3]
+              simp only [bzReadLoop_succ cfg _ _ _ s hnm, hs1, hr, hp3]
               simp [f5, hne, hz]
             obtain ⟨fin, s', h1, h2⟩ := ih (room - s.cur.length) (acc ++ s.cur) { s1 with pos := s1.fp, cur := [] }
-              (by simp [f4, htr]) (by simp) (by simp [f5]; omega) (by simp [f2, f5]; omega) (by omega)
+              (by simp [f4, htr]) (by simp [fb, hb]) (by simp) (by simp [f5]; omega) (by simp [f2, f5]; omega) (by omega)
               (by simp [f5]; exact hfuel' (by omega))
             have hfin : fin = true := by
               cases fin with
@@ -528,28 +695,29 @@ theorem bzReadLoop_intact (cfg : Cfg) (hra : 0 < cfg.ra) :
               | false => have := h2.fin_f rfl; simp at this; omega
             refine ⟨fin, s', ?_, ?_⟩
             · rw [hgo, h1]; simp [htake]
-            · exact ⟨(by rw [h2.cur]; simp [List.drop_eq_nil_iff.mpr hle]), (by rw [h2.e]; simp [f2]), (by rw [h2.rest]; simp [f3]), (by rw [h2.trunc]; simp [f4]), (by rw [h2.fsize]; simp [f5]), h2.pos_le, h2.fp_le, (by intro h; have := (h2.fin_t h).2; exact ⟨hle, by simpa [f2] using this⟩),
+            · exact ⟨(by rw [h2.cur]; simp [List.drop_eq_nil_iff.mpr hle]), (by rw [h2.e]; simp [f2]), (by rw [h2.rest]; simp [f3]), (by rw [h2.trunc]; simp [f4]), (by rw [h2.fsize]; simp [f5]), (by rw [h2.bad]; simp [fb]), h2.pos_le, h2.fp_le, (by intro h; have := (h2.fin_t h).2; exact ⟨hle, by simpa [f2] using this⟩),
                 by intro h; rw [hfin] at h; cases h⟩
         · -- the trailer is there: BZ_STREAM_END in the same call
           have hr : bzDecompress cfg room s1 = (s.cur, true, { s1 with pos := s.e, cur := [] }) := by
             simp [bzDecompress, f4, htr, f2, hA, f1, hd, hC, htake]
           refine ⟨true, { s1 with pos := s.e, cur := [] }, ?_, ?_⟩
-          · simp only [bzReadLoop, hs1, hr]
+          · simp only [bzReadLoop_succ cfg _ _ _ s hnm, hs1, hr]
             simp [htake]
-          · exact ⟨(by simp [List.drop_eq_nil_iff.mpr hle]), f2, f3, f4, f5, (by simp; omega), (by simp [f5]; omega), (by intro _; exact ⟨hle, rfl⟩), (by intro h; cases h)⟩
+          · exact ⟨(by simp [List.drop_eq_nil_iff.mpr hle]), f2, f3, f4, f5, fb, (by simp; omega), (by simp [f5]; omega), (by intro _; exact ⟨hle, rfl⟩), (by intro h; cases h)⟩
 
 /-- Contract of BZ2_bzRead on a stream inside which the file ends: full buffers as long as there are any,
     then BZ_UNEXPECTED_EOF ("the library reports truncation"). -/
 theorem bzReadLoop_trunc (cfg : Cfg) (hra : 0 < cfg.ra) :
-    ∀ fuel room acc (s : BzState α), s.trunc = true → s.e = s.fsize → s.pos ≤ s.fp → s.fp ≤ s.fsize → 0 < room →
+    ∀ fuel room acc (s : BzState α), s.trunc = true → s.bad ≠ .magic → s.e = s.fsize → s.pos ≤ s.fp → s.fp ≤ s.fsize → 0 < room →
       s.fsize - s.fp + (if s.pos = s.fp then 1 else 2) ≤ fuel →
       (room ≤ s.cur.length → ∃ s', bzReadLoop cfg fuel room acc s = .ok (acc ++ s.cur.take room, false, s') ∧ BzPost s s' room false) ∧
-      (s.cur.length < room → bzReadLoop cfg fuel room acc s = .error ()) := by
+      (s.cur.length < room → bzReadLoop cfg fuel room acc s = .error (BzErr.ofBad s.bad)) := by
   intro fuel
   induction fuel with
-  | zero => intro room acc s _ _ _ _ _ hf; split at hf <;> omega
+  | zero => intro room acc s _ _ _ _ _ _ hf; split at hf <;> omega
   | succ fuel ih =>
-    intro room acc s htr he hpos hfp hroom hfuel
+    intro room acc s htr hnm he hpos hfp hroom hfuel
+    have fb := bzRefill_bad cfg s
     obtain ⟨f1, f2, f3, f4, f5, f6⟩ := bzRefill_frame cfg s
     obtain ⟨g1, g2, g3⟩ := bzRefill_fp cfg hra s hfp
     generalize hs1 : bzRefill cfg s = s1 at *
@@ -567,10 +735,10 @@ theorem bzReadLoop_trunc (cfg : Cfg) (hra : 0 < cfg.ra) :
       have hp3 : bzProbe { s1 with pos := s1.fp } = { s1 with pos := s1.fp } := by
         simp [bzProbe, f5, hne]
       have hgo : bzReadLoop cfg (fuel + 1) room acc s = bzReadLoop cfg fuel room acc { s1 with pos := s1.fp } := by
-        simp only [bzReadLoop, hs1, hr, hp3]
+        simp only [bzReadLoop_succ cfg _ _ _ s hnm, hs1, hr, hp3]
         simp [f5, hne]
         omega
-      obtain ⟨h1, h2⟩ := ih room acc { s1 with pos := s1.fp } (by simp [f4, htr]) (by simp [f2, f5, he]) (by simp) (by simp [f5]; omega)
+      obtain ⟨h1, h2⟩ := ih room acc { s1 with pos := s1.fp } (by simp [f4, htr]) (by simp [fb, hnm]) (by simp [f2, f5, he]) (by simp) (by simp [f5]; omega)
         hroom (by simp [f5]; exact hfuel' hA)
       rw [hgo]
       constructor
@@ -578,9 +746,10 @@ theorem bzReadLoop_trunc (cfg : Cfg) (hra : 0 < cfg.ra) :
         obtain ⟨s', e1, e2⟩ := h1 (by simpa [f1] using hle)
         refine ⟨s', by rw [e1]; simp [f1], ?_⟩
         exact ⟨(by rw [e2.cur]; simp [f1]), (by rw [e2.e]; simp [f2]), (by rw [e2.rest]; simp [f3]), (by rw [e2.trunc]; simp [f4]),
-          (by rw [e2.fsize]; simp [f5]), e2.pos_le, e2.fp_le, (by intro h; cases h), (by intro _; exact hle)⟩
+          (by rw [e2.fsize]; simp [f5]), (by rw [e2.bad]; simp [fb]), e2.pos_le, e2.fp_le, (by intro h; cases h), (by intro _; exact hle)⟩
       · intro hlt
-        exact h2 (by simpa [f1] using hlt)
+        have := h2 (by simpa [f1] using hlt)
+        simpa [fb] using this
     · have hfpF : s1.fp = s.fsize := by omega
       by_cases hB : room < s.cur.length
       · have hd : (s.cur.drop room).isEmpty = false := by
@@ -593,10 +762,10 @@ theorem bzReadLoop_trunc (cfg : Cfg) (hra : 0 < cfg.ra) :
         constructor
         · intro _
           refine ⟨bzProbe { s1 with pos := s.fsize, cur := s.cur.drop room }, ?_, ?_⟩
-          · simp only [bzReadLoop, hs1, hr, hlen]
+          · simp only [bzReadLoop_succ cfg _ _ _ s hnm, hs1, hr, hlen]
             simp
           · obtain ⟨p1, p2, p3, p4, p5, p6, p7⟩ := bzProbe_frame { s1 with pos := s.fsize, cur := s.cur.drop room }
-            exact ⟨(by rw [p1]), (by rw [p2]; exact f2), (by rw [p3]; exact f3), (by rw [p4]; exact f4), (by rw [p5]; exact f5),
+            exact ⟨(by rw [p1]), (by rw [p2]; exact f2), (by rw [p3]; exact f3), (by rw [p4]; exact f4), (by rw [p5]; exact f5), (by rw [bzProbe_bad]; exact fb),
               (by rw [p6, p7]; simp; omega), (by rw [p7, p5]; simp [f5]; omega), (by intro h; cases h), (by intro _; omega)⟩
         · intro h; omega
       · have hle : s.cur.length ≤ room := Nat.le_of_not_lt hB
@@ -611,19 +780,19 @@ theorem bzReadLoop_trunc (cfg : Cfg) (hra : 0 < cfg.ra) :
         · intro hge
           have heq : room - s.cur.length = 0 := by omega
           refine ⟨{ s1 with pos := s1.fp, cur := [], eof := true }, ?_, ?_⟩
-          · simp only [bzReadLoop, hs1, hr, hp3]
+          · simp only [bzReadLoop_succ cfg _ _ _ s hnm, hs1, hr, hp3]
             simp [heq, htake]
-          · exact ⟨(by simp [List.drop_eq_nil_iff.mpr hle]), f2, f3, f4, f5, (by simp), (by simp [f5]; omega),
+          · exact ⟨(by simp [List.drop_eq_nil_iff.mpr hle]), f2, f3, f4, f5, fb, (by simp), (by simp [f5]; omega),
               (by intro h; cases h), (by intro _; omega)⟩
         · intro hlt
-          simp only [bzReadLoop, hs1, hr, hp3]
+          simp only [bzReadLoop_succ cfg _ _ _ s hnm, hs1, hr, hp3]
           simp [f5, hfpF]
           omega
 
 /-! ## Bzip2Decompressor over the BZ2_bzRead contract -/
 
 def bzRem (s : BzDec α) : List α := if s.streamEnd then [] else s.lib.cur ++ refPayload s.lib.rest
-def bzBad (s : BzDec α) : Bool := !s.streamEnd && (s.lib.trunc || hasTrunc s.lib.rest)
+def bzBad (s : BzDec α) : Bool := !s.streamEnd && (s.lib.trunc || faulty s.lib.rest)
 
 /-- invariant of the wrapper; `fx.bzUnused = true ∨ rest = []`: the repaired code on any file, or today's
     code on the last stream -/
@@ -632,7 +801,7 @@ def BzDecInv (fx : Fixes) (F N : Nat) (s : BzDec α) : Prop :=
   (s.streamEnd = false →
     s.lib.pos ≤ s.lib.fp ∧ s.lib.e + fileSize s.lib.rest = F ∧ (s.lib.trunc = true → s.lib.rest = []) ∧
     truncOnlyLast s.lib.rest = true ∧ (∀ r ∈ s.lib.rest, 0 < r.csize) ∧ s.lib.rest.length ≤ N ∧
-    (fx.bzUnused = true ∨ s.lib.rest = []))
+    (fx.bzUnused = true ∨ s.lib.rest = []) ∧ (s.lib.trunc = false → s.lib.bad = .none))
 
 theorem fileSize_pos_of_ne_nil {f : CFile α} (h : ∀ r ∈ f, 0 < r.csize) (hne : f ≠ []) : 0 < fileSize f := by
   cases f with
@@ -646,18 +815,25 @@ theorem bzDecInv_reopen (fx : Fixes) (F N : Nat) (s : BzDec α) (r : Stream α) 
     (hI : BzDecInv fx F N s) (hse : s.streamEnd = false) (hrest : s.lib.rest = r :: rs) (h1 : s.lib.e ≤ fp) (h2 : fp ≤ F) :
     BzDecInv fx F N { s with lib := bzOpenAt F fp eof s.lib.e (r :: rs) } := by
   obtain ⟨i1, i2, i3, i4⟩ := hI
-  obtain ⟨j1, j2, j3, j4, j5, j6, j7⟩ := i4 hse
+  obtain ⟨j1, j2, j3, j4, j5, j6, j7, j8⟩ := i4 hse
   refine ⟨rfl, h2, i3, ?_⟩
   intro _
   rw [hrest] at j2 j4 j5 j6 j7
-  refine ⟨h1, ?_, ?_, truncOnlyLast_tail j4, ?_, ?_, ?_⟩
+  refine ⟨h1, ?_, ?_, truncOnlyLast_tail j4, ?_, ?_, ?_, ?_⟩
   · simp only [bzOpenAt]; rw [fileSize_cons] at j2; omega
-  · intro ht; exact truncOnlyLast_head j4 ht
+  · intro ht
+    simp only [bzOpenAt, Bool.or_eq_true, bne_iff_ne] at ht
+    rcases ht with ht | ht
+    · exact truncOnlyLast_head j4 ht
+    · exact truncOnlyLast_head_bad j4 ht
   · intro x hx; exact j5 x (by simp only [bzOpenAt] at hx; simp [hx])
   · simp only [bzOpenAt]; simp at j6; omega
   · rcases j7 with h | h
     · exact Or.inl h
     · cases h
+  · intro ht
+    simp only [bzOpenAt, Bool.or_eq_false_iff] at ht
+    simpa [bzOpenAt] using ht.2
 
 /-- What one pass through the body of `Bzip2Decompressor::read` does. -/
 theorem bzStep_spec (cfg : Cfg) (hra : 0 < cfg.ra) (hibs : 0 < cfg.ibs) (fx : Fixes) (F N : Nat) (s : BzDec α)
@@ -670,11 +846,11 @@ theorem bzStep_spec (cfg : Cfg) (hra : 0 < cfg.ra) (hibs : 0 < cfg.ibs) (fx : Fi
         bzStep cfg fx s = .ok (s.lib.cur, { s with lib := bzOpenAt F fp eof s.lib.e (r :: rs) }) ∧ s.lib.e ≤ fp ∧ fp ≤ F) ∨
     (s.lib.trunc = true ∧ bzStep cfg fx s = .error ⟨.bzip2, .read⟩) := by
   obtain ⟨i1, i2, i3, i4⟩ := hI
-  obtain ⟨j1, j2, j3, j4, j5, j6, j7⟩ := i4 hse
+  obtain ⟨j1, j2, j3, j4, j5, j6, j7, j8⟩ := i4 hse
   have hbound : s.lib.fsize - s.lib.fp + (if s.lib.pos = s.lib.fp then 1 else 2) ≤ s.lib.fsize - s.lib.fp + 2 := by
     split <;> omega
   cases htr : s.lib.trunc
-  · obtain ⟨fin, lib', h1, h2⟩ := bzReadLoop_intact cfg hra (s.lib.fsize - s.lib.fp + 2) cfg.ibs [] s.lib htr j1 (by omega) (by omega) hibs hbound
+  · obtain ⟨fin, lib', h1, h2⟩ := bzReadLoop_intact cfg hra (s.lib.fsize - s.lib.fp + 2) cfg.ibs [] s.lib htr (j8 htr) j1 (by omega) (by omega) hibs hbound
     have hread : bzRead cfg cfg.ibs s.lib = .ok (s.lib.cur.take cfg.ibs, fin, lib') := by
       simp only [bzRead, h1]; simp
     cases fin
@@ -716,7 +892,13 @@ theorem bzStep_spec (cfg : Cfg) (hra : 0 < cfg.ra) (hibs : 0 < cfg.ibs) (fx : Fi
         · simp [bzStep, hread, htake, hfx, hun, hre]
   · have hrest : s.lib.rest = [] := j3 htr
     have heF : s.lib.e = s.lib.fsize := by rw [hrest] at j2; simp [fileSize] at j2; omega
-    obtain ⟨h1, h2⟩ := bzReadLoop_trunc cfg hra (s.lib.fsize - s.lib.fp + 2) cfg.ibs [] s.lib htr heF j1 (by omega) hibs hbound
+    by_cases hmag : s.lib.bad = .magic
+    · -- no header: BZ_DATA_ERROR_MAGIC, thrown like every other code
+      right; right; right
+      have hread : bzRead cfg cfg.ibs s.lib = .error .dataErrorMagic := by
+        simp only [bzRead]; exact bzReadLoop_magic cfg _ _ _ s.lib hmag
+      exact ⟨rfl, by simp [bzStep, hread]⟩
+    obtain ⟨h1, h2⟩ := bzReadLoop_trunc cfg hra (s.lib.fsize - s.lib.fp + 2) cfg.ibs [] s.lib htr hmag heF j1 (by omega) hibs hbound
     by_cases hge : cfg.ibs ≤ s.lib.cur.length
     · left
       obtain ⟨lib', e1, e2⟩ := h1 hge
@@ -724,9 +906,10 @@ theorem bzStep_spec (cfg : Cfg) (hra : 0 < cfg.ra) (hibs : 0 < cfg.ibs) (fx : Fi
         simp only [bzRead, e1]; simp
       exact ⟨lib', by simp [bzStep, hread], hge, e2⟩
     · right; right; right
-      have hread : bzRead cfg cfg.ibs s.lib = .error () := by
+      have hread : bzRead cfg cfg.ibs s.lib = .error (BzErr.ofBad s.lib.bad) := by
         simp only [bzRead]; exact h2 (by omega)
-      exact ⟨rfl, by simp [bzStep, hread]⟩
+      refine ⟨rfl, ?_⟩
+      cases hb : s.lib.bad <;> simp [bzStep, hread, hb, BzErr.ofBad]
 
 theorem BzDecInv.setOffset {fx : Fixes} {F N : Nat} {s : BzDec α} (h : BzDecInv fx F N s) :
     BzDecInv fx F N { s with offset := s.lib.fp } := by
@@ -749,7 +932,7 @@ theorem bzFdRead_spec (cfg : Cfg) (hra : 0 < cfg.ra) (hibs : 0 < cfg.ibs) (fx : 
     intro s hI hse hfuel
     have hI0 := hI
     obtain ⟨i1, i2, i3, i4⟩ := hI
-    obtain ⟨j1, j2, j3, j4, j5, j6, j7⟩ := i4 hse
+    obtain ⟨j1, j2, j3, j4, j5, j6, j7, j8⟩ := i4 hse
     rcases bzStep_spec cfg hra hibs fx F N s hI0 hse with
       ⟨lib', hstep, hge, hpost⟩ | ⟨htr, hrest, lib', hstep, hfs, hfp⟩ | ⟨htr, r, rs, fp, eof, hrest, hstep, h1, h2⟩ | ⟨htr, hstep⟩
     · -- a full buffer from the current stream
@@ -765,13 +948,14 @@ theorem bzFdRead_spec (cfg : Cfg) (hra : 0 < cfg.ra) (hibs : 0 < cfg.ibs) (fx : 
         have hfp : lib'.fp ≤ F := by have := hpost.fp_le; omega
         refine ⟨hf, hfp, hfp, ?_⟩
         intro _
-        refine ⟨hpost.pos_le, ?_, ?_, ?_, ?_, ?_, ?_⟩
+        refine ⟨hpost.pos_le, ?_, ?_, ?_, ?_, ?_, ?_, ?_⟩
         · simp only [hpost.e, hpost.rest]; exact j2
         · simp only [hpost.trunc, hpost.rest]; exact j3
         · simp only [hpost.rest]; exact j4
         · simp only [hpost.rest]; exact j5
         · simp only [hpost.rest]; exact j6
         · simp only [hpost.rest]; exact j7
+        · simp only [hpost.trunc, hpost.bad]; exact j8
       · have := hpost.fp_le; have := hpost.fsize
         simp only [bzFdDec]; omega
     · -- the last stream ends
@@ -783,12 +967,12 @@ theorem bzFdRead_spec (cfg : Cfg) (hra : 0 < cfg.ra) (hibs : 0 < cfg.ibs) (fx : 
           · simp
           · cases fuel <;> simp [bzFdRead]
         · left
-          refine ⟨by simp [bzBad, hse, htr, hrest, hasTrunc], by simp [bzRem, hse, hout, hrest, refPayload], rfl⟩
+          refine ⟨by simp [bzBad, hse, htr, hrest, faulty], by simp [bzRem, hse, hout, hrest, refPayload], rfl⟩
       · left
         refine ⟨s.lib.cur, { s with lib := lib', streamEnd := true, offset := lib'.fp }, ?_, hout, ?_, ?_, ?_, hfp⟩
         · simp [bzFdRead, hse, hstep, isEmpty_false_of_ne hout]
         · simp [bzRem, hse, hrest, refPayload]
-        · simp [bzBad, hse, htr, hrest, hasTrunc]
+        · simp [bzBad, hse, htr, hrest, faulty]
         · exact ⟨hfs, hfp, hfp, by intro h; cases h⟩
     · -- a stream ends and another one follows: reopen
       have hfx : fx.bzUnused = true := by
@@ -802,7 +986,7 @@ theorem bzFdRead_spec (cfg : Cfg) (hra : 0 < cfg.ra) (hibs : 0 < cfg.ibs) (fx : 
         rw [hgo]
         apply Outcome.transfer (t := { s with lib := bzOpenAt F fp eof s.lib.e (r :: rs) })
         · simp [bzRem, hse, hout, hrest, bzOpenAt, refPayload_cons]
-        · simp [bzBad, hse, htr, hrest, bzOpenAt, hasTrunc]
+        · simp [bzBad, hse, htr, hrest, bzOpenAt, faulty]
         · apply ih _ hI' hse
           rw [hrest] at hfuel
           simp [bzOpenAt] at hfuel ⊢; omega
@@ -810,7 +994,7 @@ theorem bzFdRead_spec (cfg : Cfg) (hra : 0 < cfg.ra) (hibs : 0 < cfg.ibs) (fx : 
         refine ⟨s.lib.cur, { s with lib := bzOpenAt F fp eof s.lib.e (r :: rs), offset := fp }, ?_, hout, ?_, ?_, ?_, h2⟩
         · simp [bzFdRead, hse, hstep, isEmpty_false_of_ne hout, bzOpenAt]
         · simp [bzRem, hse, hrest, bzOpenAt, refPayload_cons]
-        · simp [bzBad, hse, htr, hrest, bzOpenAt, hasTrunc]
+        · simp [bzBad, hse, htr, hrest, bzOpenAt, faulty]
         · have := BzDecInv.setOffset hI'
           simpa [bzOpenAt] using this
     · -- BZ_UNEXPECTED_EOF
@@ -868,6 +1052,8 @@ theorem bzReadLoop_fp (cfg : Cfg) : ∀ fuel room acc (s : BzState α), s.fp ≤
     simp only [bzReadLoop] at h
     split at h
     · simp at h
+    split at h
+    · simp at h
       obtain ⟨_, _, rfl⟩ := h
       exact ⟨by rw [d1, d2]; exact h1, by rw [d2, h2]⟩
     · split at h
@@ -887,6 +1073,8 @@ theorem bzStep_fp (cfg : Cfg) (fx : Fixes) (F : Nat) (s : BzDec α) (h : s.lib.f
     (out : List α) (s' : BzDec α) (hs : bzStep cfg fx s = .ok (out, s')) : s'.lib.fp ≤ s'.lib.fsize ∧ s'.lib.fsize = F := by
   unfold bzStep at hs
   split at hs
+  · simp at hs
+  · simp at hs
   · simp at hs
   · rename_i o fin lib' hread
     have := bzReadLoop_fp cfg _ _ _ s.lib h.1 o fin lib' (by simpa [bzRead] using hread)
